@@ -168,10 +168,10 @@ Print Assumptions C08_rank64_maxint64_refuted.
 (** Never [Panic], never [OutOfFuel]: the N-section search terminates within
     [seek_fuel m k] iterations and lands on the tuple of rank [id]. *)
 Theorem C08_seek : forall m k id,
-  (1 <= k)%nat -> Z.of_nat k <= m + 1 -> m + 1 < 2 ^ 63 ->
+  Z.of_nat k <= m + 1 -> m + 1 < 2 ^ 63 ->
   binom (Z.to_nat (m + 1)) k < 2 ^ 64 -> 0 <= id < binom (Z.to_nat (m + 1)) k ->
   exists s, seek m k id = Ok s /\ Valid m s /\ length s = k /\ rank m s = id.
-Proof. exact seek_ok. Qed.
+Proof. exact seek_total. Qed.
 Print Assumptions C08_seek.
 
 Theorem C08_seek_empty : forall m id, seek m 0 id = Ok [].
